@@ -10,17 +10,17 @@
 * ``parse_file`` / ``log_file_paths`` read what the logger produced;
 * the crash child used by C23 runs a spec, reports through its stdout pipe
   (unbuffered ``os.write``) every record written, every completed
-  ``Log.flush`` and every ``Log.cycle`` begin/end, and kills itself with
-  ``os._exit(137)`` at the requested crash point (a tick boundary, or the n-th
-  execution of a source line of the anchored functions, detected by a
-  ``sys.monitoring`` LINE callback).  Two ways to start it:
-  ``python -m vf.logx child JOB.json`` (one interpreter per crash point, used
-  under strace) and ``python -m vf.logx serve BATCH.json`` (a launcher started
-  with ``subprocess.run(timeout=)`` that imports ioflo once and ``os.fork``s one
-  victim process per crash point, each with its own pipe and watchdog; a
-  forked victim has built no ioflo object before the fork, and dies by
-  ``os._exit`` exactly like a separate interpreter, which is what makes
-  thousands of crash points affordable).
+  ``Log.flush`` and every ``Log.cycle`` begin/end.  At each requested crash
+  point (start of a tick, or the n-th execution of a source line of the
+  anchored functions, detected by a ``sys.monitoring`` LINE callback) it forks
+  and the twin kills itself with ``os._exit(137)``; the survivor snapshots the
+  log tree (= what the killed process left) and continues to the next crash
+  point (see ``child_run``).  ``python -m vf.logx serve BATCH.json`` is a
+  launcher, started with ``subprocess.run(timeout=)``, that imports ioflo once
+  and gives every job (a crash-point run, or a process resuming on a
+  snapshot) a forked process of its own with a pipe and a watchdog;
+  ``python -m vf.logx child JOB.json`` runs one job in a fresh interpreter
+  (used under strace).
 
 Nothing in here decides a property; the oracles live in the checks.
 """
@@ -236,10 +236,28 @@ def child_main(jobfile):
 
 
 def child_run(job):
-    """Run one workload in *this* process and never return: the process ends
-    with os._exit (137 at the crash point, 0 after a normal end, 3 on an
-    exception), so nothing buffered in user space is written out."""
-    spec, prefix, kill = job["spec"], job["prefix"], job.get("kill")
+    """Run one workload in *this* process and never return (os._exit: 0 after a
+    normal end, 3 on an exception), so nothing buffered in user space is ever
+    written out by interpreter shutdown.
+
+    Crash points: ``job['crashes']`` = [{'id', 'kind': 'tick', 'tick': K} |
+    {'id', 'kind': 'line', 'func', 'rel', 'nth'}, ... , each with 'snap': dir].
+    At a crash point the workload process forks; the twin -- same memory, same
+    unflushed file buffers, same descriptors -- kills itself at once with
+    ``os._exit(137)``; the surviving process reaps it, reports its exit status
+    and copies the log tree to ``snap``: exactly the files a process killed at
+    that point leaves behind (a dying process writes nothing more).  The
+    survivor then goes on to the next crash point, so one interpreter serves
+    every crash point of a configuration (process creation is by far the most
+    expensive step here).  Without ``snap`` (``job['kill']``) the process
+    itself dies at the crash point."""
+    import shutil
+    spec, prefix = job["spec"], job["prefix"]
+    crashes = list(job.get("crashes") or [])
+    if job.get("kill"):
+        crashes.append(dict(job["kill"], id="self", snap=None))
+    tick_crash = {c["tick"]: c for c in crashes if c["kind"] == "tick"}
+    line_crash = {(c["func"], c["rel"], c["nth"]): c for c in crashes if c["kind"] == "line"}
     census = job.get("census", False)
     quiet()
     import ioflo
@@ -247,6 +265,18 @@ def child_run(job):
     rig = build(spec, prefix)
     cur = {"id": None}
     written = {}
+
+    def crash(c):
+        _emit("KILL %s" % c["id"])
+        if not c.get("snap"):
+            os._exit(137)
+        pid = os.fork()
+        if pid == 0:
+            os._exit(137)                       # the twin dies here, buffers unflushed
+        _, status = os.waitpid(pid, 0)
+        _emit("DEAD %s %d" % (c["id"], os.waitstatus_to_exitcode(status)))
+        shutil.copytree(prefix, c["snap"])
+        _emit("SNAP %s" % c["id"])
 
     # observation wrappers on the instances (API boundary; the real methods run)
     def instrument(name, log):
@@ -277,14 +307,13 @@ def child_run(job):
     for name, log in rig.logs.items():
         instrument(name, log)
 
-    if census or (kill and kill["kind"] == "line"):
+    if census or line_crash:
         mon = sys.monitoring
         tool = 4
         mon.use_tool_id(tool, "vf-logx")
         codes = _line_targets()
         names = {code: name for name, code in codes.items()}
         counts = {}
-        want = (kill["func"], kill["rel"], kill["nth"]) if kill and kill["kind"] == "line" else None
 
         def on_line(code, line):
             name = names.get(code)
@@ -292,12 +321,12 @@ def child_run(job):
                 return
             rel = line - code.co_firstlineno
             k = (name, rel)
-            counts[k] = counts.get(k, 0) + 1
+            counts[k] = n = counts.get(k, 0) + 1
             if census:
                 _emit("L %s %d" % (name, rel))
-            if want is not None and want[0] == name and want[1] == rel and counts[k] == want[2]:
-                _emit("KILL line %s %d %d" % want)
-                os._exit(137)
+            c = line_crash.get((name, rel, n))
+            if c is not None:
+                crash(c)
 
         mon.register_callback(tool, mon.events.LINE, on_line)
         for code in codes.values():
@@ -310,9 +339,8 @@ def child_run(job):
         if phase == "tick":
             cur["id"] = ids[i] if i < len(ids) else None
             _emit("T %d" % i)
-            if kill and kill["kind"] == "tick" and kill["tick"] == i:
-                _emit("KILL tick %d" % i)
-                os._exit(137)
+            if i in tick_crash:
+                crash(tick_crash[i])
         elif phase == "ran":
             _emit("S %d %s" % (i, rig.statuses[-1][2]))
             if i == 0 or spec["ticks"][i]["ctl"] == "START":
@@ -326,7 +354,6 @@ def child_run(job):
         _emit("X %s" % json.dumps({"key": exc_key(ex), "tb": traceback.format_exc()[-1500:]}))
         os._exit(3)
     _emit("END")
-    sys.stdout.flush()
     os._exit(0)
 
 
@@ -389,40 +416,40 @@ def _fork_run(job, timeout):
 
 
 def serve_main(batchfile):
-    """Launcher: for each scenario run its jobs (first process, optional
-    resuming process) in forked victims; snapshot the log directory between
-    the two so the parent can judge the state the first one left."""
+    """Launcher: imports ioflo once, then runs every job of the batch in a
+    forked process of its own (pipe + watchdog).  A job may say
+    ``copy_from``: that tree is copied to the job's prefix first (a resuming
+    process works on a copy of the state a killed process left, so that state
+    itself stays available to the judge)."""
     import shutil
     with open(batchfile) as f:
         batch = json.load(f)
     quiet()
     from ioflo.base import housing, logging, globaling  # noqa: F401  (imported once, before any fork)
-    results = []
-    for sc in batch["scenarios"]:
-        runs = []
-        for j, job in enumerate(sc["jobs"]):
-            rc, out = _fork_run(job, batch.get("victim_timeout", 60))
-            runs.append({"rc": rc, "out": out})
-            if j == 0 and len(sc["jobs"]) > 1:
-                if rc not in (0, 137):
-                    break
-                shutil.copytree(job["prefix"], sc["snap"])
-        results.append({"tag": sc["tag"], "runs": runs})
+    results = {}
+    for job in batch["jobs"]:
+        src = job.get("copy_from")
+        if src:
+            if not os.path.isdir(src):
+                results[job["tag"]] = {"rc": None, "out": "", "skipped": "no snapshot %s" % src}
+                continue
+            shutil.copytree(src, job["prefix"])
+        rc, out = _fork_run(job, batch.get("victim_timeout", 120))
+        results[job["tag"]] = {"rc": rc, "out": out}
     with open(batch["out"] + ".tmp", "w") as f:
         json.dump(results, f)
     os.replace(batch["out"] + ".tmp", batch["out"])
     os._exit(0)
 
 
-def run_batch(scenarios, workdir, tag, timeout=300):
-    """scenarios: [{'tag', 'jobs': [job, (resume job)], 'snap': dir or None}].
-    Returns {tag: [(rc, report), ...]} or (None, reason)."""
+def run_batch(jobs, workdir, tag, timeout=300):
+    """jobs: crash-child jobs, each with a unique 'tag', run in order by one
+    launcher.  Returns ({tag: (rc, report)}, '') or (None, reason)."""
     from vf.core import PY, VERIF, child_env
     bf = os.path.join(workdir, "batch-%s.json" % tag)
     of = os.path.join(workdir, "batch-%s.out.json" % tag)
     with open(bf, "w") as f:
-        json.dump({"scenarios": [{"tag": s["tag"], "jobs": s["jobs"], "snap": s.get("snap")} for s in scenarios],
-                   "out": of, "victim_timeout": 60}, f)
+        json.dump({"jobs": jobs, "out": of, "victim_timeout": 120}, f)
     try:
         p = subprocess.run([PY, "-B", "-S", "-m", "vf.logx", "serve", bf], cwd=VERIF, env=child_env(),
                            capture_output=True, timeout=timeout)
@@ -432,7 +459,7 @@ def run_batch(scenarios, workdir, tag, timeout=300):
         return None, "launcher rc=%s: %s" % (p.returncode, p.stderr.decode("utf-8", "replace")[-400:])
     with open(of) as f:
         res = json.load(f)
-    return {r["tag"]: [(x["rc"], parse_report(x["out"])) for x in r["runs"]] for r in res}, ""
+    return {t: (x["rc"], parse_report(x["out"])) for t, x in res.items()}, ""
 
 
 if __name__ == "__main__":
